@@ -7,6 +7,15 @@ BASE = "cd /repo && /venv/bin/python -m pytest -ra -q -p no:cacheprovider --time
 
 # property -> (category, technique, level text, level_note, design_ref)
 CLAIMED = {
+    "C16": (
+        "proof",
+        "contract-based deductive verification: PyVC proofs (all values, unrolling with unwinding assertions) of PUSH/PUSH_N/calc_push_size; per-instance lock-step decoding of assembly_to_evm output",
+        "For all values < 2**256 and every EVM version: PUSH emits the minimal big-endian immediates (PUSH0 only from shanghai), PUSH_N exactly n bytes, calc_push_size == len(PUSH). "
+        "Two-pass agreement of resolve_symbols/_assembly_to_evm (labels at JUMPDESTs, pushed label values, data verbatim, code_end, embedded runtime == bytecode_runtime) is decided per assembly "
+        "instance over the template family and a synthetic family covering every item kind - exhaustive per instance, not an unbounded loop invariant.",
+        "Trusted: the independent decoder/opcode table, z3, CPython. The opcodes/asm/source-map text outputs are not covered.",
+        "DESIGN.md 3/C16",
+    ),
     "C03": (
         "proof",
         "contract-based deductive verification: GenVC (real generators called on symbolic-leaf operands, emitted IR term denoted, obligations for all operand words discharged by z3/cvc5) + exhaustive evaluation of the pow-bound kernel",
